@@ -57,4 +57,42 @@ end
 def selectFiles (c : PathCfg) (fs : List (Path × String)) : List Path :=
   (fs.filter (fun p => isTargetFile c p.1 p.2)).map (fun p => p.1 ++ [p.2])
 
+/-! ## the nested-module test with its cache (`Config.IsBelongNestedModule`, config.go:550)
+
+The Go code answers from a `sync.Map` keyed by directory, consults the entries of the ancestors
+(a cached `true` of an ancestor settles it), and otherwise walks up the directories below the
+project root looking for a go.mod. The cache makes the answer depend on the queries made before,
+unless it is transparent — which is the theorem `C13.nested_cache_transparent`. -/
+
+/-- stateless specification: the directory or one of its ancestors below the project root holds a go.mod -/
+def specNested (nested : List Path) (dir : Path) : Bool :=
+  !dir.isEmpty && nested.any (fun r => r.isPrefixOf dir)
+
+/-- the directory itself, its parent, …, the project root `[]` -/
+def ancestorsOrSelf (p : Path) : List Path :=
+  ((List.range (p.length + 1)).map (fun k => p.take k)).reverse
+
+abbrev NCache := List (Path × Bool)
+
+/-- `isBelongUncached`: walk up from the directory, stop at the project root -/
+def uncachedNested (nested : List Path) (dir : Path) : Bool :=
+  (ancestorsOrSelf dir).any (fun a => !a.isEmpty && nested.contains a)
+
+/-- one call of `IsBelongNestedModule` -/
+def queryNested (nested : List Path) (cache : NCache) (dir : Path) : Bool × NCache :=
+  match cache.lookup dir with
+  | some b => (b, cache)
+  | none =>
+    if (ancestorsOrSelf dir).any (fun a => cache.lookup a == some true) then (true, (dir, true) :: cache)
+    else
+      let r := uncachedNested nested dir
+      (r, (dir, r) :: cache)
+
+/-- a sequence of calls on one configuration: the answers in order -/
+def runNested (nested : List Path) : NCache → List Path → List Bool
+  | _, [] => []
+  | cache, q :: qs =>
+    let r := queryNested nested cache q
+    r.1 :: runNested nested r.2 qs
+
 end GoatSpec
